@@ -71,6 +71,17 @@ def main():
                            "PYTHONPATH=<wt> /venv/bin/python demo.py (before and after applying)",
                            f"VERIF_REPO=<wt> ./check {prop} --tier quick"],
             "repo_head": sh("git -C /repo rev-parse --short HEAD")[1].strip()}
+    old = {}
+    if os.path.exists(os.path.join(out, "meta.json")):
+        with open(os.path.join(out, "meta.json")) as f:
+            old = json.load(f)
+    for k in ("history", "round"):
+        if k in old:
+            meta[k] = old[k]
+    if len(sys.argv) > 5:
+        meta["round"] = int(sys.argv[5])
+    if len(sys.argv) > 6:
+        meta["history"] = sys.argv[6]
     with open(os.path.join(out, "meta.json"), "w") as f:
         json.dump(meta, f, indent=1)
     print(json.dumps(meta, indent=1))
